@@ -2,6 +2,7 @@ package runtime
 
 import (
 	"fmt"
+	"google.golang.org/protobuf/encoding/protowire"
 	"google.golang.org/protobuf/proto"
 	"google.golang.org/protobuf/runtime/protoiface"
 	"io"
@@ -124,8 +125,23 @@ func MarshalInputToOptions(input protoiface.MarshalInput) proto.MarshalOptions {
 	}
 }
 
+// UnmarshalInputToOptions returns the options used to decode the messages nested
+// in the message being unmarshalled. The nesting budget that is left after this
+// message is handed on through RecursionLimit; once it is used up the limit is
+// negative (zero would select the default again), so that any further nested
+// message is rejected (see CheckRecursionDepth) instead of being followed.
 func UnmarshalInputToOptions(input protoiface.UnmarshalInput) proto.UnmarshalOptions {
+	depth := input.Depth
+	if depth == 0 {
+		// Unmarshal method invoked directly, without a budget
+		depth = protowire.DefaultRecursionLimit
+	}
+	depth--
+	if depth <= 0 {
+		depth = -1
+	}
 	return proto.UnmarshalOptions{
+		RecursionLimit:    depth,
 		NoUnkeyedLiterals: input.NoUnkeyedLiterals,
 		Merge:             true, // repeated occurrences of a message field merge; the caller has reset the top-level message if needed
 		AllowPartial:      true, // defaults to true as the required fields check is done after the unmarshalling
@@ -134,7 +150,17 @@ func UnmarshalInputToOptions(input protoiface.UnmarshalInput) proto.UnmarshalOpt
 	}
 }
 
+// CheckRecursionDepth reports an error when the unmarshal input carries an
+// exhausted nesting budget.
+func CheckRecursionDepth(input protoiface.UnmarshalInput) error {
+	if input.Depth < 0 {
+		return ErrRecursionDepth
+	}
+	return nil
+}
+
 var (
+	ErrRecursionDepth       = fmt.Errorf("proto: exceeded max recursion depth")
 	ErrInvalidLength        = fmt.Errorf("proto: negative length found during unmarshaling")
 	ErrIntOverflow          = fmt.Errorf("proto: integer overflow")
 	ErrUnexpectedEndOfGroup = fmt.Errorf("proto: unexpected end of group")
